@@ -242,4 +242,10 @@ def rule_line_format(ctx):
     rule_header_lines(ctx)
 
 
-RULES = [rule_adaptors, rule_push, rule_push_appends, rule_append_only, rule_header_order, rule_line_format, rule_capacity]
+def rule_redirected_request_premise(ctx):
+    """on a flow created by following a redirect the inherited fields are the caller's: R14.6, shared"""
+    from . import rules_redirect
+    rules_redirect.rule_request_carried_over(ctx)
+
+
+RULES = [rule_adaptors, rule_push, rule_push_appends, rule_append_only, rule_header_order, rule_line_format, rule_capacity, rule_redirected_request_premise]
